@@ -54,6 +54,43 @@ if os.environ.get("LSPROTOCOL_VERIF_SIM") == "1" and os.environ.get("LSPV_CONF")
 
             uuid.uuid4 = uuid4
 
+        # ---- clock: every wall-clock reading is shifted by a simulated offset (skew / jump between runs) ----
+        if conf.get("clock_offset"):
+            import datetime as _dt
+            import time as _time
+
+            off = float(conf["clock_offset"])
+            r_time, r_time_ns, r_localtime, r_gmtime, r_strftime, r_ctime = _time.time, _time.time_ns, _time.localtime, _time.gmtime, _time.strftime, _time.ctime
+            _time.time = lambda: r_time() + off
+            _time.time_ns = lambda: r_time_ns() + int(off * 1e9)
+            _time.localtime = lambda secs=None: r_localtime(_time.time() if secs is None else secs)
+            _time.gmtime = lambda secs=None: r_gmtime(_time.time() if secs is None else secs)
+            _time.strftime = lambda fmt, t=None: r_strftime(fmt, _time.localtime() if t is None else t)
+            _time.ctime = lambda secs=None: r_ctime(_time.time() if secs is None else secs)
+            real_datetime, real_date = _dt.datetime, _dt.date
+            delta = _dt.timedelta(seconds=off)
+
+            class datetime(real_datetime):  # noqa: N801
+                @classmethod
+                def now(cls, tz=None):
+                    return real_datetime.now(tz) + delta
+
+                @classmethod
+                def utcnow(cls):
+                    return real_datetime.utcnow() + delta
+
+                @classmethod
+                def today(cls):
+                    return real_datetime.now() + delta
+
+            class date(real_date):  # noqa: N801
+                @classmethod
+                def today(cls):
+                    return (real_datetime.now() + delta).date()
+
+            _dt.datetime, _dt.date = datetime, date
+            log({"ev": "clock", "offset": off})
+
         # ---- directory enumeration order --------------------------------------------------------
         if conf.get("ls_seed") is not None:
             real_scandir, real_listdir = os.scandir, os.listdir
